@@ -350,8 +350,10 @@ structure Pseudo where
 
 def Pseudo.fresh : Pseudo := ⟨Tree.empty, []⟩
 
+/-- INSERT OR IGNORE under PRIMARY KEY (public_key, previous_token_hash, content_hash): the SIGNATURE is not part of the
+    key, so a second token with the same pointer pair (a re-signed twin) is not stored -/
 def dbInsert (db : List Token) (t : Token) : List Token :=
-  if db.any (fun x => x.core == t.core) then db else db ++ [t]
+  if db.any (fun x => x.prev == t.prev && x.chash == t.chash) then db else db ++ [t]
 
 /-- store_new_tokens(known): every element whose hash was not known before -/
 def Pseudo.storeNew (C : Crypto) (p : Pseudo) (known : List Bytes) : Pseudo :=
